@@ -9,7 +9,6 @@ _Bool _ZNK6engine8Position20threefold_repetitionEv(Pos *);
 _Bool _ZNK6engine8Position6rule50Ev(Pos *);
 _Bool _ZNK6engine8Position15enough_materialEv(Pos *);
 _Bool _ZNK6engine8Position7is_drawEv(Pos *);
-extern uint32_t _ZN6engine9MOVE_LISTE[160][512];
 #define HKEY P.POS_zobrist_hash
 
 /* lemma: the two formulations of the attack test of the rules reference agree on every board */
@@ -26,17 +25,23 @@ void incheck_case(const uint32_t *mat, int n, uint32_t side) {
   PROP(a == (_Bool)S_ATTACKED(&S, s_king_sq(&S, side), 1 - side), "C07 is_in_check(side to move) agrees with the rules");
   PROP(b == (_Bool)S_ATTACKED(&S, s_king_sq(&S, 1 - side), side), "C07 is_in_check(side not to move) agrees with the rules");
 }
+/* is_checkmate / is_stalemate = (the generator returns no move) and (in check / not in check).  The generator is
+   replaced by a stub returning an arbitrary number of moves: that an empty list means "no legal move" is C01. */
+#ifdef MATE_LOGIC
+static uint32_t gen_count;
+uint32_t *_ZN6engine14generate_movesERKNS_8PositionENS_5ColorEPj(Pos *p, uint32_t side, uint32_t *list) {
+  __CPROVER_assert(p == &P && side == P.POS_current_side, "mate/stalemate ask the generator about the side to move of this position");
+  return list + gen_count;
+}
 void mate_case(const uint32_t *mat, int n, uint32_t side) {
   pos_build(mat, n, side, 0);
+  gen_count = nondet_u32(); __CPROVER_assume(gen_count <= 3); ce_aux = gen_count;
   _Bool mate = _ZNK6engine8Position12is_checkmateEv(&P), stale = _ZNK6engine8Position12is_stalemateEv(&P);
   int incheck = S_ATTACKED(&S, s_king_sq(&S, side), 1 - side);
-  SMove m = nondet_move(); ce_mv = enc_move(m); ce_aux = mate; ce_aux2 = stale;
-  PROP(!(mate && stale), "C07 never both checkmate and stalemate");
-  if (mate || stale) PROP(!s_legal(&S, m), "C07 checkmate/stalemate only when no legal move exists");
-  else PROP(s_legal(&S, dec_move(_ZN6engine9MOVE_LISTE[0][0])), "C07 neither mate nor stalemate only when a legal move exists");
-  if (mate) PROP(incheck, "C07 checkmate only when in check");
-  if (stale) PROP(!incheck, "C07 stalemate only when not in check");
+  PROP(mate == (gen_count == 0 && incheck), "C07 is_checkmate iff no move is generated and the side to move is in check");
+  PROP(stale == (gen_count == 0 && !incheck), "C07 is_stalemate iff no move is generated and the side to move is not in check");
 }
+#endif
 #ifndef HMAX
 #define HMAX 12
 #endif
